@@ -50,6 +50,23 @@ class ColumnQuery(Query):
         self.fieldname = fieldname
         self.condition = condition
 
+    def __eq__(self, other):
+        return (other is not None and self.__class__ is other.__class__
+                and self.fieldname == other.fieldname
+                and (self.condition is other.condition
+                     or (not callable(self.condition)
+                         and not callable(other.condition)
+                         and self.condition == other.condition)))
+
+    def __hash__(self):
+        # (the rewriting methods of compound queries keep their clauses in
+        # sets; conditions need not be hashable)
+        return hash(self.fieldname) ^ hash(self.__class__.__name__)
+
+    def __repr__(self):
+        return "%s(%r, %r)" % (self.__class__.__name__, self.fieldname,
+                               self.condition)
+
     def is_leaf(self):
         return True
 
